@@ -118,7 +118,7 @@ def handleTavg (toks : List String) : Option String := do
   if !rest.isEmpty then none
   if dstep * dt = 0 then none
   let q := period / (dstep * dt)
-  let W := q.floor.toNat
+  let W := window Rat.floor period dt dstep
   let mut margin : Rat := minRat (q - (q.floor : Rat)) ((q.floor : Rat) + 1 - q)
   if W = 0 ∨ T ≤ W then margin := 0
   let x : Nat → Nat → CF := fun n i => xa.getD (n * N + i) 0
@@ -178,7 +178,7 @@ def handleScorr (toks : List String) : Option String := do
   let ppp := arrFn ps
   let xsA := xs.toArray
   let q := (minRat Lx Ly) / 2 / rdelta
-  let maxbin := q.floor.toNat
+  let maxbin := maxbinOf Rat.floor 2 (minRat Lx Ly) rdelta
   let mut margin : Rat := minRat (q - (q.floor : Rat)) ((q.floor : Rat) + 1 - q)
   let rmax := (maxbin : Rat) * rdelta
   let mut grT : Array (Array Float) := #[]
